@@ -167,6 +167,15 @@ pub fn run(ctx: &mut Ctx) {
                                     }
                                 }
                             }
+                            let probe_cfg = Cfg { method, iters: tstar as u64, max_reg: 0.0, threads: 1, params };
+                            let mk = || if method == SolveMethod::Full { Sampling::Production } else { Sampling::Seeded(seed) };
+                            if let Outcome::Ok(base1) = solve::run(&prep, &probe_cfg, Some(Config { flags: 0, sampling: mk(), jitter_seed: 0 })) {
+                                let judged = solve::max_difference(&out, want, prep.flat.max_abs_payoff());
+                                if solve::stability_probe(&tree, &probe_cfg, &mk, &base1, idx) >= judged / 1000.0 {
+                                    ctx.inconclusive("outputs-differ-but-the-solve-is-unstable-under-1e-13-relative-payoff-perturbations");
+                                    continue;
+                                }
+                            }
                         }
                         // which budget does it equal, if any
                         let matches: Vec<usize> = seq.iter().enumerate().filter(|(_, o)| o.dense == out.dense).map(|(i, _)| i + 1).collect();
